@@ -143,6 +143,11 @@ def build_traces(tier: str, rng: random.Random):
             else:
                 g = sorted({base + 2 * rng.randint(0, 400) for _ in range(n)})
             grids.append(g)
+        if cols >= 2 and rng.random() < 0.4:
+            # columns whose grids agree in size and end-points and differ only inside (each column must still use its OWN grid)
+            n = rng.choice([3, 4, 6, 12])
+            lo, hi = 2 * rng.randint(-200, 0), 2 * rng.randint(100, 400)
+            grids = [[lo] + sorted(rng.sample(range(lo + 2, hi, 2), n - 2)) + [hi] for _ in range(cols)]
         data = [[rng.randint(min(grids[c]) - 30, max(grids[c]) + 30) for c in range(cols)] for _ in range(rows)]
         shift = rng.choice([0, -4, 6])
         ev = _call_digitize(grids, data, shift)
